@@ -7,13 +7,15 @@ from ..engine import tables
 from ..engine.cutil import split_args, match_paren
 from ..engine.pyindex import walk_no_nested, is_self_attr
 from ..rules import pC15 as P
+from ..rules import sC15 as S
 from ..rules.iface import const_strs, local_env, str_template, PLACEHOLDER
 
 ID = 'C15'
 TECHNIQUE = ('interface agreement (arity, name-aligned argument order, directive provenance) between the emitting node methods and the C helper '
              'signatures read from the utility catalogue; propositional enumeration of the Python guard expressions that compute the flags; '
              'path enumeration of the C fast-path helpers per preprocessor configuration and flag value with an index-status domain '
-             '(raw / length-added / bounds-tested)')
+             '(raw / length-added / bounds-tested), used in both directions (length added at least once before a non-wrapping accessor, at most once before a '
+             'wrapping consumer); decision table of the bound normalisation in ConstantFolding.visit_SliceIndexNode over the complete partition of bound values, folded on model nodes')
 DECIDES = ('(ARITY) every helper name IndexNode emits receives explicit arguments + the flag tuple of extra_index_params exactly when it is an '
            'integer-index helper, and that count equals the C parameter count; '
            '(FLAGS) the flag tuple has one format item per element, all integer-index macros agree on the trailing parameter names, each tuple element '
@@ -28,9 +30,16 @@ DECIDES = ('(ARITY) every helper name IndexNode emits receives explicit argument
            'hands it to a wrapping fallback; flag values handed to sibling helpers are not weakened without the obligation being discharged; '
            '(SLICE) arity and name-aligned order of the calls SliceIndexNode emits, the unpacking order of get_slice_config(), and that the value for each '
            'start/stop/slice parameter is computed from the matching sub-expression; '
-           '(RAW) IndexNode selects the unchecked non-temp result path only where boundscheck is off and wrap-around cannot be needed.')
+           '(RAW) IndexNode selects the unchecked non-temp result path only where boundscheck is off and wrap-around cannot be needed; '
+           '(ONCE) in every flag-taking C fast path, for every preprocessor configuration and flag value: an index that had the container length added is handed to a consumer '
+           'that wraps by itself (PySequence_{Get,Set,Del}Item, the generic fallback behind PyLong_FromSsize_t, plain helpers that forward their parameter to one of those - derived '
+           'from the catalogue -, sibling fast paths called with wraparound possibly on) only on paths where it is known to be non-negative (bounds test passed or explicit `x < 0` rejection): '
+           'the length is never added twice; '
+           '(BOUND) ConstantFolding.visit_SliceIndexNode turns a slice bound into "no bound" only for bound values where x[a:b] on a builtin sequence cannot change '
+           '(absent, constant None; for the start also integer 0 / False): tabulated for both bounds over absent / None / 0 / False / 1 / True / -1 / other positive / other negative / '
+           'falsy and truthy non-integer constants / not a constant / constant not computed, in all combinations.')
 NOT_DECIDED = ('index arithmetic itself (that the added amount is the length, clamping in __Pyx_crop_slice / __Pyx_PyUnicode_Substring, overflow of '
-               'i + size); the generic object-protocol fallbacks; helpers whose body uses goto/loops (the slice helper) are only checked at their interface; '
+               'i + size); the cutting of constant sequences/strings by constant bounds in visit_SliceIndexNode (only the bound normalisation is tabulated, on a non-constant base); the generic object-protocol fallbacks; helpers whose body uses goto/loops (the slice helper) are only checked at their interface; '
                'the DESIGN clause "dominance in the non-templated _Fast functions" is implemented for the templated List/Tuple variants as well by expanding the template.')
 ASSUMPTIONS = ['the classification of element accessors into unchecked / checked-but-not-wrapping / wrapping (pC15.RAW_ACCESSORS etc.) follows the CPython C-API documentation',
                'flag arguments are compile-time 0/1 constants (they are emitted with %d from Python bools)']
@@ -38,7 +47,7 @@ ASSUMPTIONS = ['the classification of element accessors into unchecked / checked
 EXEMPT = {}
 
 MUTATIONS = [
-    # (file, single edit applied on a scratch copy, rule that reported it) — all 29 variants were reported (exit 1) with a message naming the construct
+    # (file, single edit applied on a scratch copy, rule that reported it) — all variants were reported (exit 1) with a message naming the construct
     ('Cython/Compiler/ExprNodes.py', 'extra_index_params: swap `wraparound, boundscheck` in the returned tuple', 'C15-FLAGS'),
     ('Cython/Compiler/ExprNodes.py', "extra_index_params: `boundscheck = bool(...directives['wraparound'])`", 'C15-FLAGS'),
     ('Cython/Compiler/ExprNodes.py', 'extra_index_params: drop `not` in `not (isinstance(...constant_result, int) and ...constant_result >= 0)`', 'C15-FLAGS'),
@@ -69,7 +78,27 @@ MUTATIONS = [
     ('Cython/Utility/StringTools.c', '__Pyx_GetItemInt_Unicode_Fast: __Pyx_is_valid_index(length, i)', 'C15-GUARD'),
     ('Cython/Utility/StringTools.c', '__Pyx_GetItemInt_ByteArray_Fast: `wraparound = wraparound && i<0` -> `i>0`', 'C15-GUARD'),
     ('Cython/Utility/StringTools.c', '__Pyx_GetItemInt_Unicode_Fast: __Pyx_SetStringIndexingError(..., boundscheck)', 'C15-FWD'),
+    # second round (sa/rules/sC15.py): seeds C15a / C15b + single-edit variants of the same mechanisms - all reported
+    ('Cython/Utility/ObjectHandling.c', 'seed C15a: __Pyx_SetItemInt_Fast wraps `i` in place (`i += PyList_GET_SIZE(o)`) instead of the copy `n`; the generic fallback gets the wrapped index', 'C15-ONCE'),
+    ('Cython/Utility/ObjectHandling.c', '__Pyx_GetItemInt_{{type}}_Fast: `return __Pyx_GetItemInt_Generic_size(o, i)` -> `(o, wrapped_i)`', 'C15-ONCE'),
+    ('Cython/Utility/ObjectHandling.c', '__Pyx_GetItemInt_Tuple_Fast (AVOID_BORROWED_REFS): remove the `if (wrapped_i < 0) {IndexError}` in front of PySequence_GetItem(o, wrapped_i)', 'C15-ONCE'),
+    ('Cython/Utility/ObjectHandling.c', '__Pyx_GetItemInt_Fast: `return sm->sq_item(o, i)` -> `return PySequence_GetItem(o, i)` after the helper added the length', 'C15-ONCE'),
+    ('Cython/Utility/ObjectHandling.c', '__Pyx_DelItemInt_Fast: sq_ass_item branch no longer returns on failure, falls through to the mapping/generic fallback with the adjusted i', 'C15-ONCE'),
+    ('Cython/Utility/ObjectHandling.c', '__Pyx_SetItemInt_Fast: __Pyx_GetItemInt_wraparound(o, sm, &i) hoisted out of the `if (sm && sm->sq_ass_item)` branch', 'C15-ONCE'),
+    ('Cython/Utility/StringTools.c', '__Pyx_SetItemInt_ByteArray_Fast: `if (wraparound && i < 0) i += size;` in front of the _Locked callee, which wraps as well', 'C15-ONCE'),
+    ('Cython/Compiler/Optimize.py', 'seed C15b: visit_SliceIndexNode `constant_result is None` -> `not constant_result` for both bounds', 'C15-BOUND stop:zero, stop:false, *:falsy-float, *:falsy-str'),
+    ('Cython/Compiler/Optimize.py', 'visit_SliceIndexNode: stop test `... is None or node.stop.constant_result == 0`', 'C15-BOUND stop:zero'),
+    ('Cython/Compiler/Optimize.py', 'visit_SliceIndexNode: stop test `not node.stop.has_constant_result()`', 'C15-BOUND stop:not-constant'),
+    ('Cython/Compiler/Optimize.py', 'visit_SliceIndexNode: copy-paste `start = node.stop = None` in the start branch', 'C15-BOUND stop:*'),
+    ('Cython/Compiler/Optimize.py', 'visit_SliceIndexNode: stop test inverted (`is not None`)', 'C15-BOUND stop:*'),
+    ('Cython/Compiler/Optimize.py', 'visit_SliceIndexNode: start test `constant_result in (None, 0, -1)`', 'C15-BOUND start:minus-one, start:falsy-float'),
+    ('Cython/Compiler/Optimize.py', 'visit_SliceIndexNode: stop test `not isinstance(node.stop.constant_result, int)`', 'C15-BOUND stop:not-constant, stop:float, ...'),
     # behaviour preserving, all silent (exit 0)
+    ('Cython/Utility/ObjectHandling.c', '(second round) __Pyx_GetItemInt_Tuple_Fast: `if (wrapped_i < 0) {error; return} return PySequence_GetItem(..)` -> `if (likely(wrapped_i >= 0)) return PySequence_GetItem(..); error`', None),
+    ('Cython/Compiler/Optimize.py', '(second round) visit_SliceIndexNode: De Morgan + swapped branches (`if node.start is not None and ...constant_result is not None: ... else: node.start = None`)', None),
+    ('Cython/Compiler/Optimize.py', '(second round) visit_SliceIndexNode: the None test extracted into a method self._no_bound(bound)', None),
+    ('Cython/Compiler/Optimize.py', '(second round) visit_SliceIndexNode: `node.stop.constant_result is None` -> `node.stop.is_none`', None),
+    ('Cython/Compiler/Optimize.py', '(second round) visit_SliceIndexNode: an integer start of 0 is dropped as well (x[0:b] == x[:b])', None),
     ('Cython/Compiler/ExprNodes.py', 'extra_index_params: rename locals wraparound->wrap, boundscheck->bc, inline has_gil', None),
     ('Cython/Compiler/ExprNodes.py', 'extra_index_params: build the tuple in a local `flags` and return fmt % flags', None),
     ('Cython/Utility/ObjectHandling.c', 'rename wrapped_i -> idx; `(!boundscheck) || likely(X)` -> `!boundscheck || X`', None),
@@ -788,4 +817,5 @@ def run(ctx):
     M = Model(ctx)
     F = Family(ctx, M)
     ra = rule_arity(ctx, M)
-    return [ra, rule_flags(ctx, M, ra), rule_forward(ctx, M, F), rule_guard(ctx, M, F), rule_slice(ctx, M), rule_raw(ctx, M)]
+    return [ra, rule_flags(ctx, M, ra), rule_forward(ctx, M, F), rule_guard(ctx, M, F), rule_slice(ctx, M), rule_raw(ctx, M),
+            S.rule_once(ctx, F), S.rule_bound(ctx)]
